@@ -29,10 +29,41 @@ func init() {
 		"vRunPending": func(ex *Exec, fr *frame, args []Value) Value { ex.runPending(); return nil },
 		"vSetOpt":     inVSetOpt,
 		"vSymbolic":   func(ex *Exec, fr *frame, args []Value) Value { return ex.B.True },
-		"vPendingGo":  func(ex *Exec, fr *frame, args []Value) Value { return ex.i64(int64(len(ex.pending))) },
-		"vNow":        func(ex *Exec, fr *frame, args []Value) Value { return ex.timeNow() },
-		"vAfter":      func(ex *Exec, fr *frame, args []Value) Value { return models["time.After"](ex, fr, args) },
-		"vSince":      func(ex *Exec, fr *frame, args []Value) Value { return models["time.Since"](ex, fr, args) },
+		"vPendingGo": func(ex *Exec, fr *frame, args []Value) Value {
+			n := 0
+			for _, g := range ex.sch.gors[1:] {
+				if !g.done {
+					n++
+				}
+			}
+			return ex.i64(int64(n))
+		},
+		"vDropPending": func(ex *Exec, fr *frame, args []Value) Value {
+			for _, g := range ex.sch.gors[1:] {
+				if !g.started {
+					g.done = true
+				}
+			}
+			return nil
+		},
+		"vEventStr": func(ex *Exec, fr *frame, args []Value) Value {
+			kind := concreteName(ex, args[0])
+			k := ex.concreteInt(fr, args[1], "event index")
+			for _, e := range ex.gevents {
+				if e.kind == kind {
+					if k == 0 {
+						return e.val
+					}
+					k--
+				}
+			}
+			ex.abort("unsupported", "vEventStr: no such event")
+			return nil
+		},
+		"vBlockedGo": func(ex *Exec, fr *frame, args []Value) Value { return ex.i64(int64(len(ex.blockedList()))) },
+		"vNow":       func(ex *Exec, fr *frame, args []Value) Value { return ex.timeNow() },
+		"vAfter":     func(ex *Exec, fr *frame, args []Value) Value { return models["time.After"](ex, fr, args) },
+		"vSince":     func(ex *Exec, fr *frame, args []Value) Value { return models["time.Since"](ex, fr, args) },
 		"vMark": func(ex *Exec, fr *frame, args []Value) Value {
 			ex.logEvent("mark:"+concreteName(ex, args[0]), nil)
 			return nil
@@ -164,6 +195,12 @@ func inVSetOpt(ex *Exec, fr *frame, args []Value) Value {
 		ex.X.SprintfMax = v
 	case "tickerTicks":
 		ex.X.TickerTicks = v
+	case "schedExplore":
+		ex.X.SchedExplore = v != 0
+	case "maxSwitches":
+		ex.X.MaxSwitches = v
+	case "deadlockIsViolation":
+		ex.X.DeadlockIsViolation = v != 0
 	case "symIndex":
 		ex.X.SymIndex = v != 0
 	case "panicIsViolation":
